@@ -96,13 +96,18 @@ def variant_of(header):
         return "filter" if w[4] != "0" else ("prio" if w[3] != "0" else "fcfs")
     if w[1] in ("buf", "bufedge"): return w[3]
     if w[1] == "prq": return ""
+    if w[1] == "slot": return "nonacc" if (len(w) >= 5 and w[4] == "0") else "acc"
     return ""
+
+def rule_matches(krule, rule):
+    """a finding names one judge rule or a list of them"""
+    return rule in krule if isinstance(krule, list) else krule == rule
 
 def match_known(known, pid, header, rule):
     fam = header.split()[1]; var = variant_of(header)
     for k in known:
         if k["status"] == "known" and pid in k["properties"] and k.get("family") == fam \
-           and k.get("variant") in (None, "", var) and k.get("rule") == rule:
+           and k.get("variant") in (None, "", var) and rule_matches(k.get("rule"), rule):
             return k
     return None
 
